@@ -3,7 +3,7 @@
 From Coq Require Import List NArith Bool Permutation.
 From SV Require Import Fmt.VpkDir Fmt.VpkDirProofs Fmt.VpkName Fmt.VpkNameSplit Fmt.VpkNameProofs SM.Vpk SM.VpkProofs.
 From SV Require Import Fmt.VpkArchName Fmt.VpkArchNameProofs SM.VpkRefine Fmt.VpkDirV2.
-From SV Require Import Fmt.VpkNameJoin Fmt.VpkNameJoinProofs SM.VpkPlaceTable SM.VpkPlaceTableProofs Fmt.VpkDirProg Fmt.VpkDirProgProofs Fmt.VpkDirRead Fmt.VpkDirReadProofs SM.VpkProperty.
+From SV Require Import Fmt.VpkNameJoin Fmt.VpkNameJoinProofs SM.VpkPlaceTable SM.VpkPlaceTableProofs Fmt.VpkDirProg Fmt.VpkDirProgProofs Fmt.VpkDirRead Fmt.VpkDirReadProofs SM.VpkProperty SM.VpkGenMachine SM.VpkGenMachineProofs.
 From SV Require Import Fmt.VpkNullStr Fmt.VpkNullStrProofs SM.VpkNested SM.VpkNestedProofs SM.VpkApi SM.VpkApiProofs SM.VpkNestedMap SM.VpkNestedMapProofs SM.VpkNestedSim SM.VpkNestedWf SM.VpkPlace SM.VpkPlaceProofs.
 Import ListNotations.
 Open Scope N_scope.
@@ -628,3 +628,38 @@ Theorem c13_property_hypotheses_satisfiable :
   c13_hyps exit_table_pinned ex_cfg table_pinned rtable_pinned goc_pinned goc_pinned del_prog_pinned ncodec_pinned wprog_pinned rprog_pinned
            (SplitLast 46) gparts_pinned join_table_pinned (ex_ncfg (n_writer (ex_ncfg reader_rstrip))) = true.
 Proof. exact c13_hyps_pinned. Qed.
+
+(** ---- the state machine assembled from the generated objects (SM/VpkGenMachine.v) ---- *)
+
+(** [gstep] is the state machine with FileInfo.write run from the placement table, write_dirfile run as the translated writer program and
+    reopening run as the translated reader program.  Whenever it gives an answer, the hand-written machine [step] gives the same one
+    (it gives none when a field overflows, or when a version-2 file is reopened: write_dirfile never produces one). *)
+Theorem c13_generated_machine_step : forall pt wp rp crc cf,
+  place_table_ok pt = true -> wprog_ok wp = true -> rprog_ok rp = true ->
+  forall st o r, gstep pt wp rp crc cf st o = Some r -> step crc cf st o = Some r.
+Proof. exact gstep_sound. Qed.
+
+(** Hence the property at its observation point holds for the generated machine: any history it runs, then write_dirfile, then reopen in
+    'r'/'a': the result codes of the specification map, exactly the files that should exist, each read back from the read table with the
+    bytes last written and verifying. *)
+Theorem c13_generated_machine_history : forall pt rt wp rp crc cf,
+  place_table_ok pt = true -> read_table_ok rt = true -> wprog_ok wp = true -> rprog_ok rp = true -> vcfg_ok cf = true ->
+  forall ops m st codes, m <> MW -> collision_free crc ops ->
+  grun pt wp rp crc cf init (ops ++ [OSave; OReopen m]) = Some (st, codes) ->
+  let '(s0, c0) := srun cf sinit ops in
+  writable (smd s0) = true ->
+  codes = c0 ++ [rOk; rOk] /\ md st = m /\ Permutation (map fst (tbl st)) (map fst (cur s0)) /\
+  forall k, match alookup k (tbl st), alookup k (cur s0) with
+            | Some i, Some d => read_info_t rt st i = Some d /\ verify_info_t rt crc st i = Some true
+            | None, None => True
+            | _, _ => False
+            end.
+Proof. exact generated_machine_history. Qed.
+
+(** Non-vacuity: the generated machine runs the example history over all four placements with the real CRC-32. *)
+Theorem c13_generated_machine_example :
+  match grun table_pinned wprog_pinned rprog_pinned crc32 ex_cfg init ex_ops, run crc32 ex_cfg init ex_ops with
+  | Some (s1, c1), Some (s2, c2) => (if list_eq_dec N.eq_dec c1 c2 then true else false) && Nat.eqb (length (tbl s1)) (length (tbl s2)) && negb (Nat.eqb (length (tbl s1)) 0)
+  | _, _ => false
+  end = true.
+Proof. exact generated_machine_example. Qed.
